@@ -278,7 +278,7 @@ func Run(d *Dump, maxSteps int) *Result {
 			}
 			a, b := stack[len(stack)-2], stack[len(stack)-1]
 			sym := map[byte]string{OpEQ: "==", OpLT: "<", OpGT: ">", OpADD: "+", OpSUB: "-", OpMUL: "*", OpDIV: "/"}[op]
-			v, e := Binary(sym, a, b)
+			v, e := ApplyBinary(sym, a, b)
 			if e != nil {
 				return fail(e)
 			}
@@ -291,7 +291,7 @@ func Run(d *Dump, maxSteps int) *Result {
 			if op == OpUNPLUS {
 				sym = "+"
 			}
-			v, e := Unary(sym, stack[len(stack)-1])
+			v, e := ApplyUnary(sym, stack[len(stack)-1])
 			if e != nil {
 				return fail(e)
 			}
